@@ -7,6 +7,10 @@ ROOT = os.path.dirname(os.path.dirname(os.path.abspath(__file__)))
 
 # id -> (technique, level text, level note, design ref)
 CHECKS = {
+    "C02": ("differential run of every option set / dialect of the real compiler against each other and against the Lean source semantics; Lean theorems for the shared path algebra (pass theorems staged)",
+            "For generated programs of every dialect: all builds that differ only in optimisation (CLI -O, compile_file optimize x frontend_opt x classic post-optimiser) and, within a value-semantics group, in dialect sigil are compiled by the real compiler and run by clvmr; every pair of value-returning builds must agree, each must equal Lang.evalSrc (Lean) whenever that returns, and switching -O / the post-optimiser on must not turn a compiling value-returning build into a failing one. Kernel-checked part: the argument-addressing algebra shared by all builds (C01 Layer A); the CLVM-level pass soundness theorems (double-apply, null, brief path, classic optimiser via C04) are staged in Props/C02.lean as they are completed. Known genuine defects are listed in known_findings.json.",
+            "Differential, generator-bounded for the optimisers themselves (CSE, de-inlining, fe_opt, strategy optimiser are not modelled); Lean kernel for the path algebra; Lang.evalSrc trusted as the language's meaning.",
+            "DESIGN.md §4 C01/C02"),
     "C01": ("Lean 4 theorems for the code generator's environment/path algebra + differential run of the real compiler against a Lean source-semantics interpreter",
             "Proved for all parameter patterns (nested, dotted, (@ name pat) captures, any width) and all argument values: the path create_name_lookup_ computes selects exactly the value source-level destructuring binds to that name, unaddressable names are exactly the unbound ones, argument paths sit in the right half of the (functions . arguments) environment. The model of that function is tied to the code by comparing the paths the real compiler emits for (mod PAT NAME) over generated patterns of 1..40 names. The full property (compiled program returns v whenever the source meaning is v) is NOT proved for the whole compiler: it is decided differentially — programs from a scope-tracking generator (every dialect sigil x feature strata) are compiled by the real compiler (CLI path with and without -O), run by clvmr and compared with Lang.evalSrc, a call-by-value interpreter of the source tree written in Lean. Genuine defects found this way are listed in known_findings.json (cl22 leaked names, strict-cl-21 -O, signed paths in the classic optimiser) and one was repaired (fix: 3b659e6).",
             "Lean kernel + the three standard axioms for Layer A; for the rest the assurance is differential and generator-bounded; Lang.evalSrc is trusted as the statement of the language's meaning; clvmr is the evaluator oracle.",
